@@ -125,4 +125,25 @@ mod verif_kani {
         assert!(urldecode_20_bytes(s).is_err(), "[C14.ident.decode.exactly_20] identifiers that are not exactly 20 bytes are rejected");
         kani::cover!(len == 20);
     }
+
+    /// quick tier: every string of exactly 20 ASCII bytes: accepted iff it contains no '%', and then it decodes to itself
+    /// (a 20-byte string that contains an escape encodes fewer than 20 bytes)
+    #[kani::proof]
+    #[kani::unwind(24)]
+    #[kani::stub(std::fmt::format, fmt_stub)]
+    #[kani::stub(std::backtrace::Backtrace::capture, bt_stub)]
+    fn urldecode_len20_ascii() {
+        let buf: [u8; 20] = kani::any();
+        let mut has_pct = false;
+        let mut i = 0;
+        while i < 20 { kani::assume(buf[i] < 128); if buf[i] == b'%' { has_pct = true; } i += 1; }
+        let s = unsafe { std::str::from_utf8_unchecked(&buf[..]) };
+        match urldecode_20_bytes(s) {
+            Ok(arr) => {
+                assert!(!has_pct, "[C14.ident.decode.exactly_20] a 20-character value containing an escape encodes fewer than 20 bytes and is rejected");
+                assert!(arr == buf, "[C14.ident.decode.value] plain characters decode to themselves");
+            }
+            Err(_) => assert!(has_pct, "[C14.ident.decode.accept] 20 plain characters are accepted"),
+        }
+    }
 }
